@@ -20,14 +20,14 @@ EXTENDS Naturals, Sequences, FiniteSets, TLC, Json
 
 CONSTANTS Atoms, MaxAtoms, Open, Fixed
 
-FixHyphen == "re-class-hyphen-unescaped" \in Fixed
-FixScoped == "re-scoped-flag-dropped" \in Fixed
-
 \* atoms are named (the harness holds the text of each name, c15.RE_ATOM_TEXT); the ones the spec knows something about:
 Invalid     == {"open_paren"}             \* (              sre_parse36.parse raises error: ordinary call rendering
 Unsupported == {"cond_group"}             \* (a)?(?(1)b|c)  parses; GROUPREF_EXISTS is unknown to _colorize_re_tree: ValueError half-way
-HyphenInSet == {"set_a_hyphen_z"}         \* [a\-z]         LITERAL '-' inside IN is written without its backslash: reads as the range a-z
-ScopedFlag  == {"scoped_i", "scoped_s"}   \* (?i:a) (?s:.)  SUBPATTERN's add_flags / del_flags are not written: (?i:a) becomes (?:a)
+\* guarded since their repair: [a\-z] keeps the backslash of a literal hyphen inside a set (373edf3; it used to be shown as the
+\* range a-z), (?i:a) (?s:.) keep the flags of the group (f8c859c; they used to be shown as (?:a)).  No class is known any more:
+\* whatever the colouriser presents must denote the same regular expression.
+HyphenInSet == {"set_a_hyphen_z"}
+ScopedFlag  == {"scoped_i", "scoped_s"}
 NamedGroup  == "named_group"              \* (?P<n>a)
 
 VARIABLE pat
@@ -44,9 +44,7 @@ Has(S) == \E i \in DOMAIN pat : pat[i] \in S
 DupName == Cardinality({i \in DOMAIN pat : pat[i] = NamedGroup}) > 1        \* redefinition of group name: not a pattern
 IsPattern == ~Has(Invalid) /\ ~DupName
 Presented == IsPattern /\ ~Has(Unsupported)
-Classes == IF ~Presented THEN {}
-           ELSE (IF Has(HyphenInSet) /\ ~FixHyphen THEN {"re-class-hyphen-unescaped"} ELSE {})
-                \cup (IF Has(ScopedFlag) /\ ~FixScoped THEN {"re-scoped-flag-dropped"} ELSE {})
+Classes == {}
 DesignKnown == Classes \subseteq Open
 Emit == PrintT(ToJson([pat |-> pat, ispattern |-> IsPattern, presented |-> Presented, cls |-> Classes]))
 =============================================================================
